@@ -7,12 +7,12 @@ HERE = os.path.dirname(os.path.abspath(__file__))
 CHECKS = {
     'C09': dict(
         category='exploration', design_ref='DESIGN.md §4 C09',
-        technique='runtime differential monitor: real SequenceDataSource/ShardedIterable/MergedSequences executed on an exhaustively enumerated small space (plus seeded random larger cases) against a plain-list oracle; nested round-robin shards of ShardedIterable, and sources with unreadable records behind lazily / eagerly sliced parts (exactly-once with error skipping)',
+        technique='runtime differential monitor: real SequenceDataSource/ShardedIterable/MergedSequences executed on an exhaustively enumerated small space (plus seeded random larger cases) against a plain-list oracle; nested round-robin shards of ShardedIterable, and sources with unreadable records behind lazily / eagerly sliced parts (exactly-once with error skipping); law: a shard rebuilt from its recorded state reports an equal state',
         text='Exhaustive-within-bounds execution of the real sharding and merged-sequence code with a list oracle: every (n,k) up to the bound, every 2-level nesting, every in-shard offset, every composition into possibly-empty parts x read-ahead sizes x every index and slice pair. Sharding arithmetic is pure and low-dimensional, so small exhaustive bounds plus random large cases are the right level.',
         note='Trusted: CPython list semantics as the oracle; behaviour beyond the explored bounds (n<=12/40 exhaustive, <=2000 random) is not covered.'),
     'C04': dict(
         category='exploration', design_ref='DESIGN.md §3.2, §4 C04', engine='E2-deterministic-scheduler',
-        technique='runtime monitoring under a deterministic thread scheduler: the real IteratorQueue is driven by producer/consumer threads whose interleaving (at every lock/condition operation and at statement boundaries of the queue methods via sys.monitoring) is chosen by seeded random-walk/PCT strategies; an offline checker over the unique-id event log decides exactly-once, per-producer order, end-of-stream values; hangs are exact deadlock witnesses',
+        technique='runtime monitoring under a deterministic thread scheduler: the real IteratorQueue is driven by producer/consumer threads whose interleaving (at every lock/condition operation and at statement boundaries of the queue methods via sys.monitoring) is chosen by seeded random-walk/PCT strategies; an offline checker over the unique-id event log decides exactly-once, per-producer order, end-of-stream values; hangs are exact deadlock witnesses; consumers / producers that poll with get_nowait / put_nowait against blocking peers (parked pollers cannot mask a deadlock), asyncio producers handed over as awaitables',
         text='Schedule exploration of the real queue code (about 19k schedules quick, about 1M thorough) with exact deadlock detection and an offline history checker. Unit tests sample one OS schedule each; this explores tens of thousands of distinct interleavings including pre-emption inside the release/re-acquire window.',
         note='Trusted: the scheduler shim (FIFO notify, no spurious wake-ups, re-entrant RLock), CPython queue classes; pre-emption granularity is a Python statement; only explored schedules are covered.'),
     'C05': dict(
@@ -32,12 +32,12 @@ CHECKS = {
         note='As C04; the handlers are invoked directly (no wire). Known finding recorded: partial batch dropped on generator failure.'),
     'C02': dict(
         category='exploration', design_ref='DESIGN.md §4 C02',
-        technique='runtime differential monitor: generated pipelines with aggregates and slicers run through the real runner (call, iterate, StopIteration value, update/merge paths) and are compared with an independent brute-force group-by using exact aggregators; metamorphic twins without/with fewer slicers; an extra case family adds 2-D columns, SELF-keyed aggregates with slicers, restricted feature crosses, ragged / mixed list columns, literal inputs and structured (tuple / namedtuple / ndarray) results; container types of results are compared',
+        technique='runtime differential monitor: generated pipelines with aggregates and slicers run through the real runner (call, iterate, StopIteration value, update/merge paths) and are compared with an independent brute-force group-by using exact aggregators; metamorphic twins without/with fewer slicers; an extra case family adds 2-D columns, SELF-keyed aggregates with slicers, restricted feature crosses, ragged / mixed list columns, literal inputs and structured (tuple / namedtuple / ndarray) results; container types of results are compared; the same pipeline also laid out as a chain of 2-3 separately built blocks (fused when same-named, stages otherwise) each declaring a random subset of the same slices, compared with the brute-force group-by per block',
         text='About 1.5k generated pipelines per quick run (100k thorough) with streams where slices appear late or only in some batches; exact harness aggregators make any mis-routed row visible.',
         note='Oracle validated against the literal slice expectations of transform_test.py. Two known findings recorded.'),
     'C07': dict(
         category='exploration', design_ref='DESIGN.md §4 C07',
-        technique='runtime differential monitor: every metric family is evaluated through function API, AggregateFn call and accumulator paths on generated inputs and compared with independent brute-force Fraction oracles (validated against 358 literal expectations of the repository tests); alias and range monitors; input classes include 1e5-4e5 examples, probabilities equal to thresholds, large-offset / int32 data, all-negative data, empty rows, unsorted / repeated k lists and exact 0 / 1 probabilities',
+        technique='runtime differential monitor: every metric family is evaluated through function API, AggregateFn call and accumulator paths on generated inputs and compared with independent brute-force Fraction oracles (validated against 358 literal expectations of the repository tests); alias and range monitors; input classes include 1e5-4e5 examples, probabilities equal to thresholds, large-offset / int32 data, all-negative data, empty rows, unsorted / repeated k lists and exact 0 / 1 probabilities; rankings with repeated ids (range law first, set-based value as a separately keyed second oracle)',
         text='About 7.8k (input, configuration) cases and 330k value checks per quick run, 500k cases thorough, against textbook definitions computed from the raw examples.',
         note='Domain restrictions listed in the evidence assumptions (zero-denominator convention, dyadic grids for histograms, retrieval rows non-empty). Three known findings recorded.'),
     'C17': dict(
@@ -52,22 +52,22 @@ CHECKS = {
         note='Only the documented set/get forms are generated (see assumptions).'),
     'C19': dict(
         category='exploration', design_ref='DESIGN.md §4 C19',
-        technique='runtime monitor on an exhaustively enumerated space: every size sequence of length <= 5 over sizes 0-6 x targets 1-7 x 1-3 columns x container kinds is re-batched by the real rebatched_args (and through apply/select/batch pipelines) and checked for row conservation, order, alignment, batch sizes and tail-only padding using unique cell ids; ragged input may never be emitted misaligned; multi-output functions into one key, threaded batch() with barriers, and iterate_fn(multithread) are compared with the plain-Python result',
+        technique='runtime monitor on an exhaustively enumerated space: every size sequence of length <= 5 over sizes 0-6 x targets 1-7 x 1-3 columns x container kinds is re-batched by the real rebatched_args (and through apply/select/batch pipelines) and checked for row conservation, order, alignment, batch sizes and tail-only padding using unique cell ids; ragged input may never be emitted misaligned; multi-output functions into one key, threaded batch() with barriers, and iterate_fn(multithread) are compared with the plain-Python result; assign with batch sizes over SELF / literal / nested-path inputs at all small size sequences without and with ignore_error, failing elements in front of, inside and behind the re-batchers with an exact which-rows-may-be-missing oracle',
         text='1.86M cases per quick run (exhaustive small space), 21M thorough incl. random long streams.',
         note='The stream is passed as an iterator; columns of a batch have equal length.'),
     'C01': dict(
         category='exploration', design_ref='DESIGN.md §4 C01',
-        technique='runtime metamorphic monitor: every shipped mergeable metric (80 adapter configurations, object and AggregateFn APIs, auto-discovered inventory) is fed the same dataset as one batch into one accumulator and as arbitrary shard/batch compositions merged together; results compared numerically / by concatenation order / reservoir invariants; per-row outputs compared with batch-of-one; plus the merge-free one-batch evaluation as a second reference',
+        technique='runtime metamorphic monitor: every shipped mergeable metric (80 adapter configurations, object and AggregateFn APIs, auto-discovered inventory) is fed the same dataset as one batch into one accumulator and as arbitrary shard/batch compositions merged together; results compared numerically / by concatenation order / reservoir invariants; per-row outputs compared with batch-of-one; plus the merge-free one-batch evaluation as a second reference; reservoirs of unequal max_size merged in both directions at every fill level (a raise must leave the receiver unchanged, never on a fresh state)',
         text='32k compositions per quick run, 786k thorough, over datasets with NaNs, ragged rankings, empty shards.',
         note='Generator restrictions in the evidence assumptions. Known findings: TopKRetrieval per-batch k truncation.'),
     'C11': dict(
         category='exploration', design_ref='DESIGN.md §4 C11',
-        technique='runtime metamorphic monitor on merge: all bracketings (and permutations for commutative metrics) of 2-5 states incl. fresh ones must agree; operands are snapshotted and re-read after the merge, after updating the receiver and after updating the operand (aliasing detection with deep-copied twins); result() interleaved against a twin that never read it; returned arrays scribbled for histogram-like metrics; n-ary merges of 3-7 states must leave every non-first state unchanged',
+        technique='runtime metamorphic monitor on merge: all bracketings (and permutations for commutative metrics) of 2-5 states incl. fresh ones must agree; operands are snapshotted and re-read after the merge, after updating the receiver and after updating the operand (aliasing detection with deep-copied twins); result() interleaved against a twin that never read it; returned arrays scribbled for histogram-like metrics; n-ary merges of 3-7 states must leave every non-first state unchanged; reservoirs of unequal max_size merged in both directions at every fill level',
         text='4k state sets per quick run (80k grouping checks), 210k thorough.',
         note='As C01.'),
     'C14': dict(
         category='exploration', design_ref='DESIGN.md §3.4, §4 C14', engine='E4-simulated-courier',
-        technique='runtime differential monitor over the simulated Courier transport: generated lazy expressions (values and raising callables) are evaluated locally and through the real CourierServer/CourierClient (sync and async); remote-object chains are mirrored on a local twin; remote iterators/queues are drained and compared with the generator; concurrent client threads; calls on a server with shutdown requested; concurrent clients on cached expressions (slow constructors / hashes force the overlap), exception-valued results and iterator elements, construction errors of remote iterables, stop / start cycles of the server',
+        technique='runtime differential monitor over the simulated Courier transport: generated lazy expressions (values and raising callables) are evaluated locally and through the real CourierServer/CourierClient (sync and async); remote-object chains are mirrored on a local twin; remote iterators/queues are drained and compared with the generator; concurrent client threads; calls on a server with shutdown requested; concurrent clients on cached expressions (slow constructors / hashes force the overlap), exception-valued results and iterator elements, construction errors of remote iterables, stop / start cycles of the server; exceptions carrying code / errno attributes, bounded iteration (num_steps) over remote queues compared with the local queue incl. producer release, liveness with only the client clock dilated (judged only when the transport log shows every heartbeat answered in time)',
         text='4.8k cases per quick run (23k transport calls), 190k thorough, on real threads.',
         note='Trusted: the transport stand-in (validated by running the 186 upstream courier tests against it in the thorough tier of C16).'),
     'C08': dict(
@@ -77,32 +77,32 @@ CHECKS = {
         note='Only keys that resolve are generated; assign/batch only where documented-valid (see assumptions). Two known findings recorded.'),
     'C12': dict(
         category='exploration', design_ref='DESIGN.md §4 C12',
-        technique='runtime differential monitor with enumerated failure positions: every subset of <= 3 failing positions of <= 8-unit streams (operators and data source, with/without slice support) x batching options x num_threads 0-2, compared with the reference interpreter run on the stream without the failing units; with skipping off: exception chain, no further data, sink closed, helper threads ended; failing source rows in front of every kind of first operator and of re-batching operators; aggregate / downstream-stage errors behind threaded stages followed by a bounded wait for the helper threads; threaded sinks with slow records',
+        technique='runtime differential monitor with enumerated failure positions: every subset of <= 3 failing positions of <= 8-unit streams (operators and data source, with/without slice support) x batching options x num_threads 0-2, compared with the reference interpreter run on the stream without the failing units; with skipping off: exception chain, no further data, sink closed, helper threads ended; failing source rows in front of every kind of first operator and of re-batching operators; aggregate / downstream-stage errors behind threaded stages followed by a bounded wait for the helper threads; threaded sinks with slow records; operator functions that return normally but whose result the operator cannot use (filter result without truth value), checkpoint + restore + dropped original with a shared sink (written once, closed once, nothing after close)',
         text='19k (chain, failure set, options) cases per quick run, 500k thorough.',
         note='Threaded runs compared as multisets. Two known findings recorded.'),
     'C16': dict(
         category='exploration', design_ref='DESIGN.md §3.4, §4 C16', engine='E4-simulated-courier',
-        technique='runtime differential monitor over the simulated transport on real threads: generated pipelines run through sharded_pipelines_as_iterator and run_pipeline_interleaved on real WorkerPool/PrefetchedCourierServer objects and are compared (batch multiset, exactly one final aggregate, exact integer aggregators) with the in-process run and an independent plain-Python reference; merge_states with every wrong strict_states_cnt must raise; round-robin sources and worker-side threads in the generated pipelines',
+        technique='runtime differential monitor over the simulated transport on real threads: generated pipelines run through sharded_pipelines_as_iterator and run_pipeline_interleaved on real WorkerPool/PrefetchedCourierServer objects and are compared (batch multiset, exactly one final aggregate, exact integer aggregators) with the in-process run and an independent plain-Python reference; merge_states with every wrong strict_states_cnt must raise; round-robin sources and worker-side threads in the generated pipelines; failing shards (application error, give-up after deadline) with inspection of what result_queue delivered after every raising run, concurrent pools with differing settings over shared servers',
         text='640 distributed runs per quick run (8k transport calls), 16k thorough; the thorough tier also runs the 186 upstream courier tests against the stand-in as a fidelity suite.',
         note='Fault-free; a case that misses a 120 s watchdog twice is reported as a hang.'),
     'C06': dict(
         category='fault_enumeration', design_ref='DESIGN.md §3.4, §4 C06', engine='E4-simulated-courier',
-        technique='runtime monitoring with fault injection: real as_completed / WorkerPool.run / sharded_pipelines_as_iterator over real PrefetchedCourierServer workers on the simulated transport with a dilated clock; a fault plan assigns lost request / lost reply / slow-beyond-deadline / death before / death after / application error to the i-th data-plane call of each worker (all single faults on the first 4 calls of every faultable worker for W<=3 enumerated, pairs sampled); oracle over client-side delivery log vs fault-free reference: exactly-once task results, output batches at least once, exactly one final aggregate equal to the in-process one, application errors surface, workers released; two-phase scenarios (a worker pronounced dead rejoins; an aborted iterate) run a second pipeline through the affected worker only; interleaved runs with a failing in-process stage and ignore_error servers are checked for released workers and silent truncation',
+        technique='runtime monitoring with fault injection: real as_completed / WorkerPool.run / sharded_pipelines_as_iterator over real PrefetchedCourierServer workers on the simulated transport with a dilated clock; a fault plan assigns lost request / lost reply / slow-beyond-deadline / death before / death after / application error to the i-th data-plane call of each worker (all single faults on the first 4 calls of every faultable worker for W<=3 enumerated, pairs sampled); oracle over client-side delivery log vs fault-free reference: exactly-once task results, output batches at least once, exactly one final aggregate equal to the in-process one, application errors surface, workers released; two-phase scenarios (a worker pronounced dead rejoins; an aborted iterate) run a second pipeline through the affected worker only; interleaved runs with a failing in-process stage and ignore_error servers are checked for released workers and silent truncation; worker death / alive=False placed between the final reply of the worker and its processing by the client',
         text='About 1k fault plans per quick run, 20k thorough, each executed against the real retry/heartbeat logic.',
         note='Trusted: transport stand-in and time dilation (S=60). One worker is never faulted. Known finding recorded: a next-batch handler that runs after its deadline can steal a batch from a re-initialised generator.'),
     'C20': dict(
         category='exploration', design_ref='DESIGN.md §3.2, §3.5, §4 C20', engine='E2-deterministic-scheduler',
-        technique='runtime monitoring in four modes: (registry) fresh WorkerRegistry with a recording dict logging every mutation from inside its critical section, driven by controlled threads under the deterministic scheduler, offline checker for dead-stays-dead / monotone heartbeats / linearizable get; (liveness) CourierClient with stub futures and a settable clock, is_alive compared with a 10-line reference model over random histories with late completions; (ownership) pools sharing workers under the scheduler with pre-emption between check and act, belief-based single-owner log; (poolops) pool operations over the simulated transport must leave no worker acquired; pools whose first-listed workers are dead or busy, a second pool probing acquire during as_completed, and all delivery orders of pushed alive / dead heartbeats of several incarnations',
+        technique='runtime monitoring in four modes: (registry) fresh WorkerRegistry with a recording dict logging every mutation from inside its critical section, driven by controlled threads under the deterministic scheduler, offline checker for dead-stays-dead / monotone heartbeats / linearizable get; (liveness) CourierClient with stub futures and a settable clock, is_alive compared with a 10-line reference model over random histories with late completions; (ownership) pools sharing workers under the scheduler with pre-emption between check and act, belief-based single-owner log; (poolops) pool operations over the simulated transport must leave no worker acquired; pools whose first-listed workers are dead or busy, a second pool probing acquire during as_completed, and all delivery orders of pushed alive / dead heartbeats of several incarnations; ownership logged per server address with pools that differ in one setting, real-transport cross_pool case',
         text='3k registry schedules, 15k liveness queries, 6k ownership schedules and 48 pool operations per quick run; x30 thorough.',
         note='Trusted: scheduler shim, stub transport futures, fake clock.'),
     'C03': dict(
         category='exploration', design_ref='DESIGN.md §3.2, §3.3, §4 C03', engine='E2-deterministic-scheduler',
-        technique='runtime differential monitor across execution strategies: the same generated pipeline (exact integer aggregators) runs single-threaded fused (reference, also against an independent plain-Python evaluation), with num_threads 1-4 under the deterministic scheduler (shard fan-out and shared thread-safe iterator, 26 explored schedules per configuration) and on native threads, as fused vs chained named stages, over make(shard=i/k) for all shards with merged states, and through the in-process interleaved stage runner; batch multisets and aggregates must agree; the final aggregate may be sliced per row (shards hold different slice keys), shard states are also merged from a one-shot iterable, sharded runs also use thread fan-out',
+        technique='runtime differential monitor across execution strategies: the same generated pipeline (exact integer aggregators) runs single-threaded fused (reference, also against an independent plain-Python evaluation), with num_threads 1-4 under the deterministic scheduler (shard fan-out and shared thread-safe iterator, 26 explored schedules per configuration) and on native threads, as fused vs chained named stages, over make(shard=i/k) for all shards with merged states, and through the in-process interleaved stage runner; batch multisets and aggregates must agree; the final aggregate may be sliced per row (shards hold different slice keys), shard states are also merged from a one-shot iterable, sharded runs also use thread fan-out; scenario f: one failing aggregate in a random (also non-final) stage, fused / chained / threaded strategies with ignore_error on and off must agree on the outcome class and, when completed, on batches and aggregates',
         text='40k strategy runs per quick run (10k explored schedules), 940k thorough.',
         note='Element-wise operators, pre-batched records, no re-batching, no sinks.'),
     'C10': dict(
         category='exploration', design_ref='DESIGN.md §4 C10',
-        technique='runtime metamorphic monitor with enumerated crash points: data sources (plain, sharded, nested-sharded, merged, round-robin iterables) and pipelines over them (exact aggregators, sliced aggregates, chained aggregating stages, ignore_error sources, num_threads 0-3) are interrupted at every cut position for up to three successive checkpoints, restored through both APIs and every receiver, with the state passed as is / deep-copied / pickled; delivered-before + delivered-after and the final aggregate must equal the uninterrupted run; re-batching pipelines are checkpointed at every output batch',
+        technique='runtime metamorphic monitor with enumerated crash points: data sources (plain, sharded, nested-sharded, merged, round-robin iterables) and pipelines over them (exact aggregators, sliced aggregates, chained aggregating stages, ignore_error sources, num_threads 0-3) are interrupted at every cut position for up to three successive checkpoints, restored through both APIs and every receiver, with the state passed as is / deep-copied / pickled; delivered-before + delivered-after and the final aggregate must equal the uninterrupted run; re-batching pipelines are checkpointed at every output batch; law from_state(s).state == s at every restore, chains of 100-1100 successive restores (bare sources, sharded, inside pipelines; states passed as is, deep-copied or pickled)',
         text='283k cases per quick run (exhaustive for n<=10, all cut lists of 1-3 checkpoints), 3.1M thorough.',
         note='Threaded cases compare multisets under a watchdog. Three known findings recorded.'),
 }
